@@ -174,6 +174,7 @@ def _transpose_note_inplace(note, interval):
     else:
         # TODO work for arbitrary octave.
         prev_step = note.step.capitalize()
+        prev_octave = note.octave
         note.step = _transpose_step(prev_step, interval.number, interval.direction)
         if STEPS[note.step] - STEPS[prev_step] < 0 and interval.direction == "up":
             note.octave += 1
@@ -182,15 +183,13 @@ def _transpose_note_inplace(note, interval):
         else:
             note.octave = note.octave
         prev_alter = note.alter if note.alter is not None else 0
-        prev_pc = MIDI_BASE_CLASS[prev_step.lower()] + prev_alter
-        tmp_pc = MIDI_BASE_CLASS[note.step.lower()]
+        prev_pitch = 12 * prev_octave + MIDI_BASE_CLASS[prev_step.lower()] + prev_alter
+        tmp_pitch = 12 * note.octave + MIDI_BASE_CLASS[note.step.lower()]
+        semitones = INTERVAL_TO_SEMITONES[interval.quality + str(interval.number)]
         if interval.direction == "up":
-            diff_sm = tmp_pc - prev_pc if tmp_pc >= prev_pc else tmp_pc + 12 - prev_pc
+            note.alter = prev_pitch + semitones - tmp_pitch
         else:
-            diff_sm = prev_pc - tmp_pc if prev_pc >= tmp_pc else prev_pc + 12 - tmp_pc
-        note.alter = (
-            INTERVAL_TO_SEMITONES[interval.quality + str(interval.number)] - diff_sm
-        )
+            note.alter = prev_pitch - semitones - tmp_pitch
 
 
 def transpose_note_old(step, alter, interval):
